@@ -38,7 +38,7 @@ impl<'a> Reader<'a> {
             result.push(c);
             self.begin += 1;
             read_something = true;
-            if c == '\r' && self.peek() == b'\n' {
+            if c == '\r' && self.next_is(b'\n') {
                 result.pop().unwrap();
                 self.begin += 1;
                 break;
@@ -107,6 +107,14 @@ impl<'a> Reader<'a> {
                 self.refill();
             }
         }
+    }
+
+    // whether the next byte of the input exists and equals `c` (never looks at stale buffer contents)
+    fn next_is(&mut self, c: u8) -> bool {
+        if self.begin == self.end {
+            self.refill();
+        }
+        !self.eof && self.buf[self.begin] == c
     }
 
     fn peek(&mut self) -> u8 {
